@@ -286,7 +286,7 @@ async fn vt_body(seed: u64, trace: Arc<Trace>) -> (Vec<String>, Vec<(String, Str
             for k in 0..ncalls {
                 tokio::time::sleep(Duration::from_millis(*sp.pick(&grid))).await;
                 let id = c * 100 + k;
-                let timeout = if sp.chance(1, 2) { Some(*sp.pick(&[1u64, 5, 10, 20, 50])) } else { None };
+                let timeout = if sp.chance(1, 2) { Some(*sp.pick(&[0u64, 1, 5, 10, 20, 50])) } else { None };
                 let mut beh = match sp.below(10) {
                     0..=3 => Beh::Now,
                     4..=5 => Beh::After(*sp.pick(&[1u64, 5, 10, 20])),
